@@ -46,6 +46,8 @@ def stage_bt(work, name):
 def run(chk):
     tier = chk.tier
     failed = chk.prove("theories/Properties/C06.v")
+    from props import visit_tie
+    visit_tie.run(chk)
     C.build()
     work = os.path.join(vlib.BUILD, "c06")
     shutil.rmtree(work, ignore_errors=True)
@@ -72,7 +74,7 @@ def run(chk):
         if d:
             progs.append(("bt-testdata/" + name, d, "BTONLY", None))
 
-    taint_specs = ["od=0,n=%d" % K, "od=1,n=%d" % K, "fs=1,od=0,n=2", "od=0,ma=1,n=%d" % K, "od=0,ma=2,n=2"]
+    taint_specs = ["od=0,n=%d" % K, "od=1,n=%d" % K, "fs=1,od=0,n=2", "od=0,ma=1,n=%d" % K] + ([] if tier == "quick" else ["od=0,ma=2,n=2"])
     bt_specs = ["bt=1,od=0,n=%d" % K, "bt=1,od=1,n=2"]
     x_taint = ["od=0", "od=1"] if tier == "quick" else ["od=0", "od=1", "od=0,ma=1"]
     x_bt = ["bt=1,od=0"]
@@ -89,7 +91,7 @@ def run(chk):
         if btcfg or cfg == "BTONLY":
             bc = os.path.join(d, btcfg) if btcfg else None
             jobs.append(((name, "bt", "inproc"), dict(d=d, specs=bt_specs, timeout=to, config=bc)))
-            for c in cpus_list:
+            for c in (cpus_list[:1] if tier == "quick" else cpus_list):
                 jobs.append(((name, "bt", "xproc-cpus%s" % c), dict(d=d, specs=x_bt, timeout=to, config=bc, cpus=c)))
     results = C.trun_many(jobs, workers=max(2, vlib.NCPU // 4))
 
